@@ -134,6 +134,7 @@ class PathEnum:
         self.max_paths, self.max_depth = max_paths, max_depth
         self.hier = hier or Hier(idx)
         self.count = 0
+        self.stop_nodes = set()      # statements at which enumeration stops (exit ('stop', node))
 
     # ------------------------------------------------------------ top level
     def run(self, func, cls=None, consts=None, fnbinds=None):
@@ -418,8 +419,21 @@ class PathEnum:
         elif retnode is None:
             q.env[key] = None
 
+    def run_block(self, func, cls, stmts, consts=None):
+        """enumerate only a region (statement list) of func"""
+        p = Path()
+        fr = Frame(func, cls, 0, 0)
+        p.nf = 1
+        for k, v in (consts or {}).items():
+            p.env[(0, k)] = v
+        return self.block(stmts, p, fr)
+
     def stmt(self, s, p, fr):
         self._guard()
+        if s in self.stop_nodes:
+            q = p.fork()
+            q.exit = ('stop', s)
+            return [q]
         if isinstance(s, ast.Expr):
             if isinstance(s.value, ast.Constant):
                 return [p]
